@@ -694,25 +694,6 @@ def population_st(draw):
     return {"kind": "discover", "devices": devs, "selector": sel, "fault": draw(fault_st(2))}
 
 
-def discover_reducer(case):
-    import copy
-    n = len(case["devices"])
-    for i in range(n - 1, -1, -1):
-        c = copy.deepcopy(case)
-        del c["devices"][i]
-        yield c
-    for i in range(n):
-        if case["devices"][i]["inst"]:
-            c = copy.deepcopy(case)
-            c["devices"][i]["inst"] = c["devices"][i]["inst"][:-1]
-            yield c
-    if case["selector"][0] in ("list", "gen", "tuple") and case["selector"][1]:
-        c = copy.deepcopy(case)
-        c["selector"][1] = c["selector"][1][:-1]
-        if not (c["selector"][0] == "tuple" and len(c["selector"][1]) == 2):
-            yield c
-
-
 # ---------------------------------------------------------------------- shards ----
 FILLERS = ["repeat", 0, 0xFF, 0xA5]
 STALES = [[0, 0, 0], [0xFF, 0xFF, 0xFF], [0xA5, 0x5A, 0x3C]]
@@ -898,8 +879,7 @@ def _shard(arg):
         hyp.search(scheme_st(), guarded, res, max(20, n // 4), seed + 2, ID, nontrivial=nontrivial, classify=classify)
     elif kind == "hyp-discover":
         _, seed, n = arg
-        hyp.search(population_st(), run_case, res, n, seed, ID, nontrivial=nontrivial, classify=classify, shrink=False,
-                   reducer=discover_reducer)
+        hyp.search(population_st(), run_case, res, n, seed, ID, nontrivial=nontrivial, classify=classify)
     return res
 
 
